@@ -127,12 +127,17 @@ pub fn run_history(o: &Opts, _cfg: &GenCfg, prog: &Prog, hist: &[Step], case_see
         .step_bound
         .store(4 * 200 * (prog.nodes.len() as u64 + 2).pow(2), std::sync::atomic::Ordering::Relaxed);
     let do_fresh = case_seed % 8 == 0;
-    let mut lru = crate::mon_lru::LruModel::new(prog, 4);
     for (si, step) in hist.iter().enumerate() {
         match step {
             Step::Req(req) => {
                 let got = runner.request(req);
-                let exp = runner.expect(req);
+                let (exp, calls) = match req {
+                    Req::Entries => (Expect::Ents(vec![]), vec![]),
+                    _ => refint::expect_req_calls(prog, &runner.inp, req),
+                };
+                if o.prop == "C04" || o.prop == "C03" {
+                    runner.ctx.log.push(Rec::RefCalls(calls));
+                }
                 if let Some(m) = check_value(&runner, req, &got, &exp) {
                     // attribute: fresh salsa vs reference
                     let fresh = fresh_outcome(prog, &runner.inp, req);
@@ -161,19 +166,27 @@ pub fn run_history(o: &Opts, _cfg: &GenCfg, prog: &Prog, hist: &[Step], case_see
                         .push(format!("step {si}: unexpected panic for {req:?}: {got:?}"));
                     break;
                 }
-                if o.prop == "C05" {
-                    lru.on_request(&runner, prog, req, &got);
-                }
             }
             w => {
                 runner.write(w);
                 if !runner.violations.is_empty() {
                     break;
                 }
-                if o.prop == "C05" {
-                    if let Some(m) = lru.on_write(&runner, w) {
-                        rep.violations.push(format!("step {si}: {m}"));
-                        break;
+                if o.prop == "C05" && !matches!(w, Step::SetLru(_)) {
+                    // boundary observation: which lru results still exist right after the write
+                    for (n, node) in prog.nodes.iter().enumerate() {
+                        if node.kind == Kind::Lru {
+                            let tag = crate::world::tag_of(ActK {
+                                f: FnK::Lru,
+                                node: n as u32,
+                                arg: 0,
+                                key_idx: 0,
+                                key_gen: 0,
+                            });
+                            let cnt = runner.ctx.live[tag as usize]
+                                .load(std::sync::atomic::Ordering::Relaxed);
+                            runner.ctx.log.push(Rec::LiveSample(n as u32, cnt));
+                        }
                     }
                 }
                 let an = runner.quiescent_anomalies();
@@ -204,15 +217,20 @@ pub fn run_history(o: &Opts, _cfg: &GenCfg, prog: &Prog, hist: &[Step], case_see
     }
     rep.violations.extend(runner.violations.drain(..));
     let log = runner.take_log();
+    dump_log(&log);
     let stats = mon::basic_stats(&log);
     rep.counts.merge(&stats);
     rep.counts.add("history_steps", hist.len() as u64);
-    rep.counts.merge(&lru.counts);
 
     // property-specific monitors over the log
     match o.prop.as_str() {
         "C03" => {
             let (v, c) = crate::mon_reuse::check(prog, &log, &runner);
+            rep.violations.extend(v);
+            rep.counts.merge(&c);
+        }
+        "C05" => {
+            let (v, c) = crate::mon_lru::check(prog, &log);
             rep.violations.extend(v);
             rep.counts.merge(&c);
         }
@@ -222,12 +240,12 @@ pub fn run_history(o: &Opts, _cfg: &GenCfg, prog: &Prog, hist: &[Step], case_see
             rep.counts.merge(&c);
         }
         "C06" | "C07" => {
-            let (v, c) = crate::mon_misc::check_identity(prog, &log);
+            let (v, c) = crate::mon_misc::check_identity(prog, &log, &runner.ctx);
             rep.violations.extend(v);
             rep.counts.merge(&c);
         }
         "C09" => {
-            let (v, c) = crate::mon_misc::check_retention(prog, &log);
+            let (v, c) = crate::mon_misc::check_retention(prog, &log, &runner.ctx);
             rep.violations.extend(v);
             rep.counts.merge(&c);
         }
@@ -239,6 +257,15 @@ pub fn run_history(o: &Opts, _cfg: &GenCfg, prog: &Prog, hist: &[Step], case_see
         _ => {}
     }
 
+    if o.prop == "C11" {
+        for (_, _, r) in &log {
+            if let Rec::Ret(_, Outcome::List(l)) = r {
+                if !l.is_empty() {
+                    rep.counts.inc("accum_nonempty");
+                }
+            }
+        }
+    }
     // non-triviality rules
     let s = &rep.counts;
     rep.nontrivial = match o.prop.as_str() {
@@ -271,11 +298,12 @@ pub fn cyc_cfg(prop: &str, rng: &mut Rng) -> GenCfg {
     c.min_nodes = 2;
     c.max_nodes = 6;
     c.max_depth = 2;
-    c.hist_len = (10, 30);
-    let bits = 3;
+    c.hist_len = (10, 40);
+    let bits = if rng.chance(1, 2) { 2 } else { 3 };
     match prop {
         "C12" | "C18" => {
             c.cyclic = Some(CycCfg {
+                peek: rng.chance(1, 2),
                 kinds: if rng.chance(1, 2) {
                     vec![(Kind::Fix, 1)]
                 } else {
@@ -287,6 +315,7 @@ pub fn cyc_cfg(prop: &str, rng: &mut Rng) -> GenCfg {
         }
         "C13" => {
             c.cyclic = Some(CycCfg {
+                peek: false,
                 kinds: vec![(Kind::Fb, 1)],
                 nonmonotone: false,
                 bits,
@@ -294,6 +323,7 @@ pub fn cyc_cfg(prop: &str, rng: &mut Rng) -> GenCfg {
         }
         "C14" => {
             c.cyclic = Some(CycCfg {
+                peek: false,
                 kinds: if rng.chance(1, 2) {
                     vec![(Kind::Plain, 1)]
                 } else {
@@ -305,6 +335,7 @@ pub fn cyc_cfg(prop: &str, rng: &mut Rng) -> GenCfg {
         }
         "C15" => {
             c.cyclic = Some(CycCfg {
+                peek: false,
                 kinds: vec![(Kind::Fix, 3), (Kind::FixJ, 1)],
                 nonmonotone: true,
                 bits: 12,
@@ -380,7 +411,7 @@ fn is_monotone_now(prog: &Prog, inp: &refint::Inputs) -> bool {
     }
     fn has_call(e: &Expr) -> bool {
         match e {
-            Expr::Call(_) => true,
+            Expr::Call(_) | Expr::PeekZ(..) => true,
             Expr::Bin(_, a, b) => has_call(a) || has_call(b),
             Expr::If(c, t, f) => has_call(c) || has_call(t) || has_call(f),
             _ => false,
@@ -392,8 +423,27 @@ fn is_monotone_now(prog: &Prog, inp: &refint::Inputs) -> bool {
 pub fn cyclic_case(o: &Opts, case_seed: u64) -> CaseReport {
     let mut rng = Rng::new(case_seed);
     let cfg = cyc_cfg(&o.prop, &mut rng);
-    let prog = gen_prog(&mut rng, &cfg);
-    let hist = gen_history(&mut rng, &cfg, &prog);
+    let mut prog = gen_prog(&mut rng, &cfg);
+    let mut hist = gen_history(&mut rng, &cfg, &prog);
+    if o.sub == "demo12" {
+        // experiment: the exact shape and history of a known-tricky case
+        let mut r2 = Rng::new(1);
+        let mut c2 = cfg.clone();
+        c2.cyclic = Some(CycCfg { peek: true, kinds: vec![(Kind::Fix, 1)], nonmonotone: false, bits: 3 });
+        loop {
+            prog = gen_prog(&mut r2, &c2);
+            if prog.nodes.len() == 5 && matches!(prog.nodes[0].body, Expr::PeekZ(1, 2, _)) {
+                break;
+            }
+        }
+        let set = |c, f, v| Step::Set { cell: c, field: f, val: v, dur: None };
+        hist = vec![
+            set(0, 0, 3), set(0, 1, 1), set(1, 0, 3),
+            Step::Req(Req::Node(0)), Step::Req(Req::Node(2)), Step::Req(Req::Node(3)), Step::Req(Req::Node(4)),
+            set(0, 0, 2),
+            Step::Req(Req::Node(0)), Step::Req(Req::Node(2)), Step::Req(Req::Node(3)), Step::Req(Req::Node(4)), Step::Req(Req::Node(1)),
+        ];
+    }
     let mut rep = CaseReport::new();
     rep.sample = format!("PROG {prog} HISTORY {}", fmt_history(&hist));
     rep.sig = hash_str(&rep.sample);
@@ -405,6 +455,8 @@ pub fn cyclic_case(o: &Opts, case_seed: u64) -> CaseReport {
         .store(bound, std::sync::atomic::Ordering::Relaxed);
     let mut entry_points = std::collections::BTreeSet::new();
     let mut first_req_in_rev = true;
+    let mut mismatch: Option<(usize, Outcome)> = None;
+    let mut panicked_in_rev = false;
     for (si, step) in hist.iter().enumerate() {
         match step {
             Step::Req(Req::Node(n)) => {
@@ -431,15 +483,25 @@ pub fn cyclic_case(o: &Opts, case_seed: u64) -> CaseReport {
                 match cyc_expect(&o.prop, &prog, &runner.inp, *n) {
                     Some(exp) => {
                         rep.counts.inc("decided_requests");
-                        let ok = match (&exp, &got) {
-                            // a cycle that already panicked in this revision may be reported as propagated
-                            (Expect::Panic(PanicClass::Cycle), Outcome::Panic(PanicClass::Propagated, _)) => true,
+                        let may_cycle_panic = match &exp {
+                            Expect::Panic(PanicClass::Cycle) => true,
+                            Expect::OneOf(xs) => xs.contains(&Expect::Panic(PanicClass::Cycle)),
+                            _ => false,
+                        };
+                        let ok = match &got {
+                            // a recovering head poisoned by a cycle panic earlier in this revision
+                            // reports later requests as a propagated panic
+                            Outcome::Panic(PanicClass::Propagated, _) if may_cycle_panic && panicked_in_rev => true,
                             _ => outcome_matches(&exp, &got),
                         };
+                        if matches!(got, Outcome::Panic(..)) {
+                            panicked_in_rev = true;
+                        }
                         if matches!(got, Outcome::Panic(PanicClass::Cycle, _)) {
                             rep.counts.inc("cycle_panics");
                         }
                         if !ok {
+                            mismatch = Some((*n, got.clone()));
                             rep.violations.push(format!(
                                 "step {si}: request n{n} at rev {} returned {got:?}, reference says {exp:?} (inputs {:?})",
                                 runner.world.rev(),
@@ -469,6 +531,7 @@ pub fn cyclic_case(o: &Opts, case_seed: u64) -> CaseReport {
             w => {
                 runner.write(w);
                 first_req_in_rev = true;
+                panicked_in_rev = false;
                 let an = runner.quiescent_anomalies();
                 if !an.is_empty() {
                     rep.counts.inc("h3_anomalies");
@@ -478,7 +541,15 @@ pub fn cyclic_case(o: &Opts, case_seed: u64) -> CaseReport {
     }
     rep.violations.extend(runner.violations.drain(..));
     let log = runner.take_log();
+    dump_log(&log);
     rep.counts.merge(&mon::basic_stats(&log));
+    if let Some((n, got)) = &mismatch {
+        if let Some(sig) = classify_cyc_mismatch(&prog, &runner.inp, &log, *n, got) {
+            if let Some(m) = rep.violations.last_mut() {
+                m.push_str(&format!(" [sig:{sig}]"));
+            }
+        }
+    }
     // iteration bound
     for (_, _, r) in &log {
         if let Rec::Ev(Ev::WillIterate(k, it)) = r {
@@ -499,4 +570,121 @@ pub fn cyclic_case(o: &Opts, case_seed: u64) -> CaseReport {
         _ => true,
     };
     rep
+}
+
+pub fn dump_log(log: &[Stamped]) {
+    if std::env::var("SVH_DUMP").is_ok() {
+        for (c, th, r) in log {
+            eprintln!("{c:6} t{th} {r:?}");
+        }
+    }
+}
+
+/// Narrow classification of a value mismatch on a cyclic program into the failure classes
+/// listed in known_findings.json. Anything that does not fit exactly stays unclassified.
+pub fn classify_cyc_mismatch(
+    prog: &Prog,
+    inp: &refint::Inputs,
+    log: &[Stamped],
+    n: usize,
+    got: &Outcome,
+) -> Option<&'static str> {
+    let Outcome::Val(g) = got else { return None };
+    let edges = refint::call_edges(prog, inp);
+    let (comp, cyc) = refint::sccs(&edges);
+    if !cyc[comp[n]] {
+        return None;
+    }
+    // records of the current revision
+    let start = log
+        .iter()
+        .rposition(|(_, _, r)| matches!(r, Rec::WriteDone(..)))
+        .map(|i| i + 1)
+        .unwrap_or(0);
+    let cur = &log[start..];
+    let executed_now = |m: usize| {
+        cur.iter()
+            .any(|(_, _, r)| matches!(r, Rec::Enter(a) if a.node as usize == m))
+    };
+    let keymap = mon::key_map(log);
+    let validated_now = |m: usize| {
+        cur.iter().any(|(_, _, r)| match r {
+            Rec::Ev(Ev::DidValidate(k)) => keymap.get(k).map(|a| a.node as usize) == Some(m),
+            _ => false,
+        })
+    };
+    let all_fb = prog.nodes.iter().all(|x| x.kind == Kind::Fb);
+    if all_fb {
+        let refv = refint::fallback_values(prog, inp);
+        let body = refint::eval_with_pub(&prog.nodes[n].body, inp, &refv);
+        let callee_reused = edges[n]
+            .iter()
+            .any(|&m| m != n && comp[m] == comp[n] && !executed_now(m));
+        if body == *g && *g != prog.nodes[n].fb && executed_now(n) && callee_reused {
+            return Some("C13/fallback_participant_reexecuted_outside_cycle");
+        }
+        return None;
+    }
+    let all_fix = prog
+        .nodes
+        .iter()
+        .all(|x| matches!(x.kind, Kind::Fix | Kind::FixJ));
+    if all_fix {
+        let last_exit = log[..start].iter().rev().find_map(|(_, _, r)| match r {
+            Rec::Exit(a, v) if a.node as usize == n => Some(*v),
+            _ => None,
+        });
+        // the member's own last execution and the inputs it read directly
+        let execs = mon::executions(&log[..start]);
+        let last = execs.iter().rev().find(|e| e.act.node as usize == n && e.value.is_some());
+        let direct_changed = match last {
+            None => true,
+            Some(e) => {
+                let mut ch = false;
+                for (rk, v) in &e.reads {
+                    if let ReadK::In(c, f) = rk {
+                        if inp.cells[*c as usize][*f as usize] != *v {
+                            ch = true;
+                        }
+                    }
+                }
+                ch
+            }
+        };
+        let nested = refint::cyc_info(prog, inp, n).nested;
+        // the class is about inputs read by *other members of the member's own cycle*: some
+        // input written since the member's last execution must be read by such a member
+        let since = last.map(|e| e.end).unwrap_or(0);
+        let mut written: Vec<(usize, usize)> = Vec::new();
+        for (clk, _, r) in log {
+            if let Rec::SetField(c, f, _, _) = r {
+                if *clk > since {
+                    written.push((*c as usize, *f as usize));
+                }
+            }
+        }
+        fn reads_input(e: &Expr, c: usize, f: usize) -> bool {
+            match e {
+                Expr::In(a, b) => *a == c && *b == f,
+                Expr::Bin(_, a, b) => reads_input(a, c, f) || reads_input(b, c, f),
+                Expr::If(a, b, d) => reads_input(a, c, f) || reads_input(b, c, f) || reads_input(d, c, f),
+                Expr::PeekZ(_, _, g) => reads_input(g, c, f),
+                _ => false,
+            }
+        }
+        let via_own_cycle = written.iter().any(|(c, f)| {
+            (0..prog.nodes.len())
+                .any(|m| m != n && comp[m] == comp[n] && reads_input(&prog.nodes[m].body, *c, *f))
+        });
+        if last_exit == Some(*g)
+            && !executed_now(n)
+            && validated_now(n)
+            && !direct_changed
+            && nested
+            && via_own_cycle
+        {
+            return Some("C12/stale_inner_head_validated_missing_flattened_input");
+        }
+    }
+    None
 }
